@@ -64,7 +64,12 @@ impl DataError {
 
 // marker mirrors of the customisation traits (their default methods are not used by the extracted code)
 pub trait BasicDataCustom: Clone {}
-pub trait BasicDataCompanion<T: BasicDataCustom>: Clone {}
+/// mirror of data/src/basic/companion.rs::BasicDataCompanion (supertraits other than Clone dropped): the three host hooks, uninterpreted
+pub trait BasicDataCompanion<T: BasicDataCustom>: Clone {
+    fn resolve(data: &mut BasicGarnishData<T, Self>, symbol: u64) -> Result<bool, DataError>;
+    fn apply(data: &mut BasicGarnishData<T, Self>, external_value: usize, input_addr: usize) -> Result<bool, DataError>;
+    fn defer_op(data: &mut BasicGarnishData<T, Self>, operation: Instruction, left: (GarnishDataType, usize), right: (GarnishDataType, usize)) -> Result<bool, DataError>;
+}
 
 //@@EXTRACT enum data/src/basic/data.rs BasicData derive=none
 //@@EXTRACT enum data/src/basic/storage.rs ReallocationStrategy derive=none
